@@ -148,6 +148,9 @@ func runCase(t *rapid.T, c hx.Creds) error {
 	}
 	ev.Label(fmt.Sprintf("ulen:%d", len(c.User)))
 	ev.Label(fmt.Sprintf("plen:%d", len(c.Password)))
+	if c.Packed != 0 && len(c.Password) < 20 && len(c.KG) > 0 {
+		ev.Label("secrets:password-and-kg-in-one-buffer")
+	}
 	ev.NonTrivial(fmt.Sprintf("%v|%d|%d|%v|%d|%v|%d", c.Suite, len(c.User), len(c.Password), c.KG != nil, c.Priv, c.Lookup, c.Seed))
 	_ = bmc.ErrIncorrectPassword
 	return nil
@@ -263,11 +266,20 @@ func TestTwoSessionsOneConnection(t *testing.T) {
 			}
 		}
 		w := hx.NewWorldFor(a, true)
-		w.BMC.Users[b.User] = b.Password
+		w.BMC.Users[b.User] = append([]byte(nil), b.Password...)
 		ctx := context.Background()
 		// one options value serves both establishments (the caller changes user,
 		// password and suite in it between the two), as a fleet scraper would
 		o := a.Opts()
+		ob := b.Opts()
+		// the two users' passwords may sit next to each other in one buffer
+		var arena, arenaBefore []byte
+		if rapid.Bool().Draw(t, "passwordsInOneBuffer") {
+			arena = append(append(append(make([]byte, 0, 64), a.Password...), b.Password...), "0123456789abcdefghijklmn"...)
+			arenaBefore = append([]byte(nil), arena...)
+			o.Password, ob.Password = arena[:len(a.Password)], arena[len(a.Password):len(a.Password)+len(b.Password)]
+			ev.Label("secrets:two-passwords-in-one-buffer")
+		}
 		before := *o
 		before.Password, before.KG = append([]byte(nil), o.Password...), append([]byte(nil), o.KG...)
 		sa, err := w.T.NewV2Session(ctx, o)
@@ -278,7 +290,9 @@ func TestTwoSessionsOneConnection(t *testing.T) {
 			o.MaxPrivilegeLevel != before.MaxPrivilegeLevel || o.PrivilegeLevelLookup != before.PrivilegeLevelLookup || len(o.CipherSuites) != len(before.CipherSuites) {
 			t.Fatalf("NewV2Session modified the caller's options: before %+v after %+v", before, *o)
 		}
-		ob := b.Opts()
+		if !bytes.Equal(arena, arenaBefore) {
+			t.Fatalf("NewV2Session wrote into the caller's buffer behind the password: before % x after % x", arenaBefore, arena)
+		}
 		o.Username, o.Password, o.MaxPrivilegeLevel, o.PrivilegeLevelLookup, o.CipherSuites = ob.Username, ob.Password, ob.MaxPrivilegeLevel, ob.PrivilegeLevelLookup, ob.CipherSuites
 		sb, err := w.T.NewV2Session(ctx, o)
 		if err != nil {
@@ -328,6 +342,6 @@ func TestCoverage(t *testing.T) {
 	for _, s := range hx.Suites9() {
 		need = append(need, "suite:"+s.String()+":session")
 	}
-	ev.RequireLabels(t, 1, append(need, "kg", "no-kg", "no-kg:empty-non-nil-slice")...)
+	ev.RequireLabels(t, 1, append(need, "kg", "no-kg", "no-kg:empty-non-nil-slice", "secrets:password-and-kg-in-one-buffer", "secrets:two-passwords-in-one-buffer")...)
 	_ = ref.AuthSHA1
 }
